@@ -188,8 +188,14 @@ ScopeBalanceP(m2) == m2.ctl.t = "start" => \A v \in 1..Len(m2.vms) : Len(m2.vms[
 \* C03: no container longer than the bound
 SizeInvP(m2) == \A a \in 1..Len(m2.heap) : Len(m2.heap[a].items) <= Bound
 
+\* C18: names requested from the host during a call are among list_names(source) of that call (recorded by the
+\* harness as calls[i].listed) or the implicit names; calls with host ASTs / closures of earlier calls excepted
+ListedP(m2) == \A i \in 1..Len(m2.results) :
+                  ("listed" \in DOMAIN Case.calls[i] /\ Len(Case.calls[i].ast) = 0 /\ i = 1)
+                  => m2.results[i].looked \subseteq ({Case.calls[i].listed[j] : j \in 1..Len(Case.calls[i].listed)} \cup ImplicitNames)
 PropViolation(m1, m2) ==
     IF ~Input.props THEN ""
+    ELSE IF ~ListedP(m2) THEN "C18 LookedListed: a name requested from the host is not reported by list_names"
     ELSE IF ~BudgetInvP(m2) THEN "C01 BudgetInv: a VM record was charged beyond its budget"
     ELSE IF ~LimitExactP(m1, m2) THEN "C01 LimitExact"
     ELSE IF ~NoEffectAtLimitP(m1, m2) THEN "C01 NoEffectAtLimit"
